@@ -1,0 +1,26 @@
+//go:build verif
+
+package verifhook
+
+import "sync/atomic"
+
+// Enabled reports whether hooks are compiled in.
+const Enabled = true
+
+var handler atomic.Pointer[func(point, a, b string)]
+
+// Set installs (or, with nil, removes) the function called at every hook point.
+func Set(f func(point, a, b string)) {
+	if f == nil {
+		handler.Store(nil)
+		return
+	}
+	handler.Store(&f)
+}
+
+// At calls the installed handler, if any. The calling goroutine may be delayed or parked by it.
+func At(point, a, b string) {
+	if h := handler.Load(); h != nil {
+		(*h)(point, a, b)
+	}
+}
